@@ -110,7 +110,7 @@ func osDate(L *LState) int {
 	if L.GetTop() >= 1 {
 		cfmt = L.OptString(1, "%c")
 		if strings.HasPrefix(cfmt, "!") {
-			cfmt = strings.TrimLeft(cfmt, "!")
+			cfmt = cfmt[1:] // one '!' selects UTC; a second one belongs to the format
 			isUTC = true
 		}
 		if L.Get(2) != LNil {
